@@ -24,9 +24,9 @@ RULE = ("generated float/int arrays of 1-4 dims (finite dyadic values), numeric 
         "two nodes or outside the range, on an axis that is not stored increasing or is not the first dimension.")
 ASSUMPTIONS = [
     "oracle: y0 + (x-x0)*(y1-y0)/(x1-x0) on the sorted fibre, compared with rtol=atol=1e-12, cross-checked against np.interp",
-    "labels and values are dyadic rationals; values finite",
+    "labels and values are dyadic rationals; data may contain NaN (a node keeps its value, an interval next to a NaN is NaN) but no infinities",
 ]
-MANDATORY = ["point:between", "point:below", "point:above", "point:on-node", "axis:size-1", "axis:shuf", "axis:dec", "axis:not-first", "ndim:1", "ndim>=2",
+MANDATORY = ["data:nan", "point:between", "point:below", "point:above", "point:on-node", "axis:size-1", "axis:shuf", "axis:dec", "axis:not-first", "ndim:1", "ndim>=2",
              "fill:left-finite", "fill:right-finite", "new:unsorted", "new:empty", "issorted:True", "like", "dataset", "vk:i"]
 
 
@@ -60,6 +60,10 @@ def case_st(draw):
     vk = draw(st.sampled_from("ffi"))
     ncell = int(np.prod([len(l) for l in labels]))
     vals = [k / 4.0 for k in draw(st.lists(st.integers(-20, 20), min_size=ncell, max_size=ncell))] if vk == "f" else draw(st.lists(st.integers(-9, 9), min_size=ncell, max_size=ncell))
+    if vk == "f" and draw(st.integers(0, 3)) == 0:
+        # missing values in the data: a node keeps its own value whatever its neighbours are; an interval next to a NaN is NaN
+        for j in draw(st.lists(st.integers(0, ncell - 1), min_size=1, max_size=max(1, ncell // 3), unique=True)):
+            vals[j] = "NaN"
     spec = {"dims": dims, "labels": labels, "vk": vk, "vals": vals, "attrs": {"units": "K", "h": [1]}}
     case = {"mode": mode, "spec": spec, "ax": ax, "axis_form": draw(st.sampled_from(["name", "pos"])), "new": draw(points(labels[ax])),
             "left": draw(st.sampled_from(["nan", "nan", -77.0])), "right": draw(st.sampled_from(["nan", "nan", 88.0])),
@@ -175,7 +179,7 @@ def run_case(case):
         kw["left"] = left
     if case["right"] != "nan":
         kw["right"] = right
-    cl = set(["vk:" + spec["vk"]])
+    cl = set(["vk:" + spec["vk"]] + (["data:nan"] if "NaN" in spec["vals"] else []))
     sig = {"mode": case["mode"]}
     nontrivial = classify(cl, labels[ax], new, ax, nd, case)
     what = "%s new=%s %s dims=%s labels=%s vals=%s axis=%s" % (case["mode"], new, kw, dims, labels, spec["vals"], d)
